@@ -17,6 +17,7 @@ import StepModel.GenCxxHeadKey
 import StepModel.GenCxxReadBack
 import StepModel.GenCxxRedefLine
 import StepModel.GenCxxCallsP
+import StepModel.GenCxxDeriveFullP
 /-!
 # C02 — generated dictionary and classes mirror the EXPRESS schema
 
@@ -783,6 +784,35 @@ theorem C02_flags_derive_full_schema {s : Schema} {rank : String → Nat} (wf : 
     (n : String) (e : Entity) (hE : s.findE n = some e) (l : List (SA × Bool × Bool)) (hl : instanceFlags s n = some l) :
     ∀ a d r, (a, d, r) ∈ l → (d = true ↔ derivedIn s (fuelOf s) n a.name a.owner = true) :=
   C02_flags_derive_full wf rr r1 n e hE (C02_head_keys_distinct hn hk (fuelOf s) n) l hl
+
+/-- **Which attributes of a fresh instance are flagged `_derive`, for every resolved schema with distinct names** — no hypothesis
+    on redeclarations (`RedeclResolves` / `RedeclNamesOneLine` of `C02_flags_derive_full` are gone): exactly those the closed form
+    `derivedInP` of the instance's entity names, i.e. the creator-aware, chain-following search of `populateAttrList` as it is
+    since fixes C02-8, C02-11 and C02-14.  Every supertype graph; soundness is the invariant of all constructors, completeness the
+    entity's own calls on the head (`GenCxxDeriveFullP.lean`). -/
+theorem C02_flags_derive_full_any_schema {s : Schema} {rank : String → Nat} (wf : WF s rank)
+    (hn : (s.entities.map (·.name)).Nodup) (hk : AttrKeysDistinct s)
+    (n : String) (e : Entity) (hE : s.findE n = some e) (l : List (SA × Bool × Bool)) (hl : instanceFlags s n = some l) :
+    ∀ a d r, (a, d, r) ∈ l → (d = true ↔ derivedInP s (fuelOf s) n a.name a.owner = true) := by
+  intro a d r hmem
+  unfold instanceFlags at hl
+  have hkey := C02_push_compares_descriptor
+  simp only [hkey, Option.some.injEq] at hl
+  subst hl
+  have hF : fuelOf s = (fuelOf s - 1) + 1 := by unfold fuelOf; omega
+  have hki := C02_head_keys_distinct hn hk (fuelOf s) n
+  simp only [List.mem_filterMap] at hmem
+  obtain ⟨id, hid, ho⟩ := hmem
+  cases hobj : (ctorNF s (fuelOf s) n {}).objs[id]? with
+  | none => simp [hobj] at ho
+  | some o =>
+    simp only [hobj, Option.map_some, Option.some.injEq, Prod.mk.injEq] at ho
+    obtain ⟨h1, h2, _⟩ := ho
+    have hsa : saAt (ctorNF s (fuelOf s) n {}) id = some a := by simp [saAt, hobj, h1]
+    have hda : dAt (ctorNF s (fuelOf s) n {}) id = d := by simp [dAt, hobj, h2]
+    rw [← hda]
+    rw [hF] at hki hid hsa ⊢
+    exact flags_derive_fullP wf C02_dedup_keeps_derivation (fuelOf s - 1) n e hE hki id hid a hsa
 
 /-- A derivation on a NON-principal path reaches the instance (since fix C02-11): `u SUBTYPE OF (c, b)`, `b` redeclares `SELF\a.x`
     as derived.  The part constructor of `b` marks its own copy of `a.x`, which the head rejected as a duplicate — but the
